@@ -343,6 +343,47 @@ def build(ctx, consts):
     g.trace('tr_xyt2tr', [('a', 'V3')], lambda a: base.xyt2tr(a))
     g.trace('tr_xyt2tr_deg', [('a', 'V3')], lambda a: base.xyt2tr(a, unit='deg'))
     g.trace('tr_SE2_xyt', [('a', 'V3')], lambda a: SE2(a[0], a[1], a[2]).A)
+    # ---- UnitQuaternion constructors.  RPY / Eul hand base.r2q ONE matrix: the real constructor is executed on symbols with
+    # base.r2q replaced (in this process) by a recorder, the trace is the matrix it was given (per order / alias / unit);
+    # r2q itself is the model C04_R2q.r2q_100 (q2r (r2q A) = A proved for every rotation, Model/C04_R2qProofs.v), tied below.
+    import spatialmath.base.quaternions as _bq
+
+    def r2q_argument(call):
+        rec = []
+        saved = (base.r2q, _bq.r2q)
+
+        def recorder(R, *a, **k):
+            rec.append(R)
+            return np.array([1.0, 0.0, 0.0, 0.0])
+        base.r2q = _bq.r2q = recorder
+        try:
+            call()
+        finally:
+            base.r2q, _bq.r2q = saved
+        if len(rec) != 1:
+            raise RuntimeError(f"the constructor called base.r2q {len(rec)} times (expected once, on the rotation matrix)")
+        return rec[0]
+    for o, alias in ORDERS.items():
+        for nm_, od_ in ((o, o), (alias, alias)):
+            g.trace(f'tr_UQ_RPY_arg_{nm_}', S3, (lambda od_: lambda r, p, y: r2q_argument(lambda: UnitQuaternion.RPY([r, p, y], order=od_)))(od_),
+                    num_fn=(lambda od_: lambda r, p, y: UnitQuaternion.RPY([r, p, y], order=od_).R)(od_), tol=1e-9)
+        g.trace(f'tr_UQ_RPY_arg_deg_{o}', S3, (lambda o: lambda r, p, y: r2q_argument(lambda: UnitQuaternion.RPY([r, p, y], order=o, unit='deg')))(o),
+                num_fn=(lambda o: lambda r, p, y: UnitQuaternion.RPY([r, p, y], order=o, unit='deg').R)(o), tol=1e-9)
+    g.trace('tr_UQ_RPY_arg_default', S3, lambda r, p, y: r2q_argument(lambda: UnitQuaternion.RPY([r, p, y])),
+            num_fn=lambda r, p, y: UnitQuaternion.RPY([r, p, y]).R, tol=1e-9)
+    g.trace('tr_UQ_Eul_arg', E3, lambda f, t, s: r2q_argument(lambda: UnitQuaternion.Eul([f, t, s])),
+            num_fn=lambda f, t, s: UnitQuaternion.Eul([f, t, s]).R, tol=1e-9)
+    g.trace('tr_UQ_Eul_arg_deg', E3, lambda f, t, s: r2q_argument(lambda: UnitQuaternion.Eul([f, t, s], unit='deg')),
+            num_fn=lambda f, t, s: UnitQuaternion.Eul([f, t, s], unit='deg').R, tol=1e-9)
+    # elementary rotations and axis-angle: the quaternion itself is traced (no r2q on these paths)
+    set_val({'a': 0.4})
+    for ax_ in 'xyz':
+        g.trace(f'tr_UQ_R{ax_}', [('a', 'S')], (lambda ax_: lambda a: getattr(UnitQuaternion, 'R' + ax_)(a).vec)(ax_))
+        g.trace(f'tr_UQ_R{ax_}_deg', [('a', 'S')], (lambda ax_: lambda a: getattr(UnitQuaternion, 'R' + ax_)(a, 'deg').vec)(ax_))
+    set_val({'v0': 0.3, 'v1': -0.5, 'v2': 0.8, 'th': 0.7})
+    with concolic.object_alloc():
+        g.trace('tr_UQ_AngVec', [('th', 'S'), ('v', 'V3')], lambda th, v: UnitQuaternion.AngVec(th, v).vec,
+                sampler=lambda rng: [float(rng.uniform(-PI, PI)), rand_unit(rng) * log_uniform(rng, 1e-3, 1e3)], tol=1e-9)
     # quaternion route of the UnitQuaternion accessors (rpy/eul/angvec all go through .R): both representatives give one matrix
     g.trace('tr_q2r', [('q', 'V4')], lambda q: base.q2r(q))
     def uq_R(q):
@@ -369,6 +410,14 @@ def build(ctx, consts):
     def av_num(R):
         t, v = base.tr2angvec(R)
         return np.r_[t, v]
+    def r2q_sampler(rng):
+        u = rng.random()
+        th = PI - log_uniform(rng, 1e-9, 1e-1) if u < 0.25 else (log_uniform(rng, 1e-9, 1e-1) if u < 0.4 else rng.uniform(0, PI))
+        ax = np.eye(3)[rng.integers(3)] * rng.choice([-1.0, 1.0]) if rng.random() < 0.3 else rand_unit(rng)
+        return [np.array(rot_from_axis_angle(ax, th), float)]
+    defs.append("Definition m_r2q {T} (O : ops T) (R : M33 T) := SM.Model.C04_R2q.r2q_100 O R.\n")
+    g.model('m_r2q', [('R', 'M33')], 'V4', coq='m_r2q', module='Model.C04_R2q', num_fn=lambda R: base.r2q(R), sampler=r2q_sampler, tol=1e-7,
+            note='r2q model of Model/C04_R2q.v (owned by C04), tied here because Props/C05_d.v relies on its round-trip theorem')
     defs.append("Definition m_tr2angvec_general {T} (O : ops T) (R : M33 T) := angvec_general O R.\n")
     g.model('m_tr2angvec_general', [('R', 'M33')], 'V4', coq='m_tr2angvec_general', module='Model.C05_Angvec', num_fn=av_num,
             sampler=av_sampler, tol=1e-9)
@@ -417,7 +466,7 @@ def build(ctx, consts):
 def gen_text(g, defs, consts):
     txt = g.coq_text()
     txt = txt.replace("From SM Require Import Base.Ops.\n",
-                      "From SM Require Import Base.Ops Base.Lin Model.C05_Angles Model.C05_Angvec.\nFrom SMgen Require Import Consts_C05.\n", 1)
+                      "From SM Require Import Base.Ops Base.Lin Model.C05_Angles Model.C05_Angvec Model.C04_R2q.\nFrom SMgen Require Import Consts_C05.\n", 1)
     txt += "\n(* hand models of theories/Model/C05_Angles.v instantiated with the thresholds regenerated from the source *)\n" + defs
     return txt
 
@@ -791,6 +840,89 @@ def oracle_multi_planar(ctx):
             ctx.fail(f'oracle:multi:planar:raises:{type(ex).__name__}', f"planar accessor on a {n}-valued object raises {type(ex).__name__}: {ex}", rep)
 
 
+def _elem(axis, a):
+    return rot_from_axis_angle(np.eye(3)['xyz'.index(axis)], a)
+
+
+DOC_PRODUCT = {'zyx': lambda r, p, y: _elem('z', y) @ _elem('y', p) @ _elem('x', r),
+               'xyz': lambda r, p, y: _elem('x', y) @ _elem('y', p) @ _elem('z', r),
+               'yxz': lambda r, p, y: _elem('y', y) @ _elem('x', p) @ _elem('z', r)}
+
+
+def oracle_uq_constructors(ctx):
+    """constructor side for the quaternion class, per option: UnitQuaternion.RPY (every order + alias + default), Eul, AngVec,
+    EulerVec, Rx/Ry/Rz; single value and N-valued forms; rad/deg -- against the documented axis-order product built from
+    independent elementary rotations, and against the matrix constructors"""
+    rng = ctx.rng
+
+    def ang():
+        u = rng.random()
+        if u < 0.35:
+            return float(rng.choice([0, PI / 2, -PI / 2, PI, -PI, PI / 3, 2 * PI / 3])) + float(rng.choice([0, 1, -1])) * log_uniform(rng, 1e-12, 1e-1)
+        return float(rng.uniform(-PI, PI))
+
+    def chk(key, q, Rdoc, rep):
+        ctx.case((key, tuple(np.round(Rdoc.flatten(), 12))))
+        ctx.count('oracle:uqctor:' + key.split(':')[0])
+        v = np.asarray(q.vec, float)
+        Rq = np.array(q.R, float)
+        err = float(np.max(np.abs(Rq - Rdoc)))
+        ctx.stats['worst:uqctor'] = max(ctx.stats.get('worst:uqctor', 0.0), err)
+        if not err <= 1e-9 or not abs(float(v @ v) - 1) <= 1e-9:
+            ctx.fail(f'oracle:uqctor:{key}', f"UnitQuaternion.{key}: rotation matrix of the result differs from the documented product by {err:g} "
+                     f"(|q|^2 - 1 = {float(v @ v) - 1:g})", dict(rep, q=v.tolist(), documented_hex=hexl(Rdoc)))
+
+    for it in range(ctx.n(150, 1000)):
+        r, p, y = ang(), ang(), ang()
+        n = int(rng.integers(2, 5))
+        rows = np.array([[ang(), ang(), ang()] for _ in range(n)])
+        for u, k in (('rad', 1.0), ('deg', 180 / PI)):
+            try:
+                for order, alias in ORDERS.items():
+                    for od in (order, alias):
+                        rep = {'ctor': 'RPY', 'order': od, 'unit': u, 'angles': [r * k, p * k, y * k]}
+                        chk(f'RPY:{od}:{u}', UnitQuaternion.RPY([r * k, p * k, y * k], order=od, unit=u), DOC_PRODUCT[order](r, p, y), rep)
+                        Q = UnitQuaternion.RPY(rows * k, order=od, unit=u)
+                        if len(Q) != n:
+                            ctx.fail(f'oracle:uqctor:RPY:{od}:{u}:multi-length', f"UnitQuaternion.RPY of {n} rows holds {len(Q)} values", dict(rep, rows=(rows * k).tolist()))
+                        else:
+                            for i in range(n):
+                                chk(f'RPY:{od}:{u}:multi', Q[i], DOC_PRODUCT[order](*rows[i]), dict(rep, rows=(rows * k).tolist(), element=i))
+                        Rm = np.array(base.rpy2r(r * k, p * k, y * k, order=od, unit=u), float)
+                        if not np.max(np.abs(Rm - DOC_PRODUCT[order](r, p, y))) <= 1e-9:
+                            ctx.fail(f'oracle:ctor:rpy2r:{od}:{u}', "base.rpy2r differs from the documented product", rep)
+                        Rs3 = np.array(SO3.RPY([r * k, p * k, y * k], order=od, unit=u).A, float)
+                        if not np.max(np.abs(Rs3 - DOC_PRODUCT[order](r, p, y))) <= 1e-9:
+                            ctx.fail(f'oracle:ctor:SO3.RPY:{od}:{u}', "SO3.RPY differs from the documented product", rep)
+                rep = {'ctor': 'RPY', 'order': 'default', 'unit': u, 'angles': [r * k, p * k, y * k]}
+                chk(f'RPY:default:{u}', UnitQuaternion.RPY([r * k, p * k, y * k], unit=u), DOC_PRODUCT['zyx'](r, p, y), rep)
+                Rdoc = _elem('z', r) @ _elem('y', p) @ _elem('z', y)
+                rep = {'ctor': 'Eul', 'unit': u, 'angles': [r * k, p * k, y * k]}
+                chk(f'Eul:{u}', UnitQuaternion.Eul([r * k, p * k, y * k], unit=u), Rdoc, rep)
+                Q = UnitQuaternion.Eul(rows * k, unit=u)
+                for i in range(min(n, len(Q))):
+                    chk(f'Eul:{u}:multi', Q[i], _elem('z', rows[i][0]) @ _elem('y', rows[i][1]) @ _elem('z', rows[i][2]), dict(rep, rows=(rows * k).tolist(), element=i))
+                if len(Q) != n:
+                    ctx.fail(f'oracle:uqctor:Eul:{u}:multi-length', f"UnitQuaternion.Eul of {n} rows holds {len(Q)} values", rep)
+                for axn in 'xyz':
+                    rep = {'ctor': 'R' + axn, 'unit': u, 'angle': r * k}
+                    chk(f'R{axn}:{u}', getattr(UnitQuaternion, 'R' + axn)(r * k, u), _elem(axn, r), rep)
+                    Q = getattr(UnitQuaternion, 'R' + axn)(rows[:, 0] * k, u)
+                    for i in range(min(n, len(Q))):
+                        chk(f'R{axn}:{u}:multi', Q[i], _elem(axn, rows[i, 0]), dict(rep, angles=(rows[:, 0] * k).tolist(), element=i))
+                v = rand_unit(rng) * log_uniform(rng, 1e-2, 1e2)
+                rep = {'ctor': 'AngVec', 'unit': u, 'theta': r * k, 'v': v.tolist()}
+                chk(f'AngVec:{u}', UnitQuaternion.AngVec(r * k, v, unit=u), rot_from_axis_angle(v, r), rep)
+            except Exception as ex:
+                ctx.fail(f'oracle:uqctor:raises:{type(ex).__name__}', f"a UnitQuaternion constructor raises {type(ex).__name__}: {ex}"[:400],
+                         {'angles': [r, p, y], 'unit': u})
+        try:
+            w = rand_unit(rng) * (abs(r) if abs(r) > 1e-9 else 0.5)
+            chk('EulerVec', UnitQuaternion.EulerVec(w), rot_from_axis_angle(w, float(np.linalg.norm(w))), {'ctor': 'EulerVec', 'w': w.tolist()})
+        except Exception as ex:
+            ctx.fail(f'oracle:uqctor:EulerVec:raises:{type(ex).__name__}', f"UnitQuaternion.EulerVec raises {type(ex).__name__}: {ex}"[:400], {'w': w.tolist()})
+
+
 def run(ctx):
     ctx.rule = ("obligations: theorems of theories/Props/C05_a.v, C05_b.v over the constructor traces and threshold constants regenerated from "
                 "/repo (+ the fixed lemma library Model/C05_Proofs.v they instantiate); evaluations: T-num cases (hand model vs "
@@ -817,6 +949,7 @@ def run(ctx):
         ctx.fail('gen:compile', 'generated definitions do not compile: ' + err[-800:], no_input=True)
     else:
         ctx.prove('theories/Props/C05_a.v')       # constructors: axis orders, aliases, call forms, degrees
+        ctx.prove('theories/Props/C05_d.v')       # UnitQuaternion constructors: documented axis orders per order / alias / unit
         ctx.prove('theories/Props/C05_c.v')       # axis-angle: general path of tr2angvec is a right inverse of angvec2r
         ctx.prove('theories/Props/C05_b.v')       # extraction: right inverse, singular case, ranges, degrees (needs the thresholds)
         with ctx.timed('correspond'):
@@ -835,7 +968,7 @@ def run(ctx):
                     sym_num(ctx, sub, MOD, 1500)
     with ctx.timed('oracle'):
         import traceback
-        for orc in (oracle_rpy, oracle_eul, oracle_angvec, oracle_planar, oracle_multi, oracle_multi_planar):
+        for orc in (oracle_rpy, oracle_eul, oracle_angvec, oracle_planar, oracle_multi, oracle_multi_planar, oracle_uq_constructors):
             try:                                  # fail-soft: an oracle group that cannot go on is a finding, the others still run
                 orc(ctx)
             except Exception as ex:
